@@ -1,6 +1,7 @@
 package checks
 
 import (
+	"bytes"
 	"encoding/json"
 	"errors"
 	"fmt"
@@ -24,6 +25,9 @@ type c04Case struct {
 	// AllOffsets=false restricts SeekNext start offsets of files > 600 bytes to
 	// windows around record boundaries and every 13th offset.
 	AllOffsets bool `json:"all_offsets"`
+	// Legacy: a multi-record compatibility fixture of the repository (below recordio/test_files), 255 records, record i =
+	// the bytes 0..i-1 (as its generator documents)
+	Legacy string `json:"legacy,omitempty"`
 }
 
 // enumerate writer programs of exactly `length` ops. recs = indexes usable by W,
@@ -142,7 +146,16 @@ func (c c04) Run(ctx *core.Ctx) error {
 			cases = append(cases, core.J(c04Case{Prog: p, Cfgs: dc, AllOffsets: true}))
 		}
 	}
-	ctx.Ev.Rule = "every writer program of Write/WriteSync/Seek(to a surviving boundary) up to the length bound over 13 records (nil, empty, 40 zero bytes, marker prefixes and the full marker, a payload that makes a trial read overflow a varint, payloads starting with 00/80, a 4200-byte incompressible record containing a marker) x 4 compressions x write buffers {3,16,4096} x read buffers {5,4096} (+ direct-I/O factory for Write-only programs; + every program with at least one Seek up to seek_programs_max_length over records of 1, 14 and 40 bytes x 4 configs); per file: every word over {ReadNext,SkipNext} of length n+1, ReadNextAt at every returned offset, SeekNext from every byte offset 0..size. a case is distinct by (program, config); non-trivial = at least one record survives"
+	// record files written by the earlier format versions (and the current one as a control), read through every path
+	var legacy []string
+	for _, v := range []string{"v1", "v2", "v3", "v4"} {
+		for _, f := range []string{"recordio_UncompressedWriterMultiRecord_asc", "recordio_SnappyWriterMultiRecord_asc"} {
+			legacy = append(legacy, v+"_compat/"+f)
+			cases = append(cases, core.J(c04Case{Legacy: v + "_compat/" + f}))
+		}
+	}
+	ctx.Ev.Bounds["legacy_fixture_files"] = legacy
+	ctx.Ev.Rule = "every writer program of Write/WriteSync/Seek(to a surviving boundary) up to the length bound over 13 records (nil, empty, 40 zero bytes, marker prefixes and the full marker, a payload that makes a trial read overflow a varint, payloads starting with 00/80, a 4200-byte incompressible record containing a marker) x 4 compressions x write buffers {3,16,4096} x read buffers {5,4096} (+ direct-I/O factory for Write-only programs; + every program with at least one Seek up to seek_programs_max_length over records of 1, 14 and 40 bytes x 4 configs); plus the 255-record fixtures of format versions 1-4 of the repository read through every path against their documented content; per file: every word over {ReadNext,SkipNext} of length n+1, ReadNextAt at every returned offset, SeekNext from every byte offset 0..size. a case is distinct by (program, config); non-trivial = at least one record survives"
 	ctx.Ev.Bounds["max_program_length"] = maxLen
 	ctx.Ev.Bounds["programs"] = nprog
 	ctx.Ev.Bounds["direct_io_programs"] = nd
@@ -162,6 +175,9 @@ func (c c04) Case(w *core.WCtx, payload json.RawMessage) core.Result {
 	var cs c04Case
 	json.Unmarshal(payload, &cs)
 	var r core.Result
+	if cs.Legacy != "" {
+		return c04Legacy(cs)
+	}
 	alpha := rioAlphabet()
 	progStr := func() string {
 		var s []string
@@ -296,4 +312,135 @@ func seekSig(path string, o uint64, m rioModel, next int, err error) string {
 		}
 	}
 	return ""
+}
+
+// c04Legacy reads a 255-record fixture of an earlier format version through every reader and access path.
+func c04Legacy(cs c04Case) core.Result {
+	var r core.Result
+	path := repoRoot() + "/recordio/test_files/" + cs.Legacy
+	viol := func(f string, a ...any) {
+		if len(r.Viol) < 6 {
+			r.Viol = append(r.Viol, core.Violation{Desc: fmt.Sprintf("legacy file %s: %s", cs.Legacy, fmt.Sprintf(f, a...)), Case: core.J(cs)})
+		}
+	}
+	defer func() {
+		if p := recover(); p != nil {
+			viol("panic: %v", p)
+		}
+	}()
+	const n = 255
+	want := func(i int) []byte {
+		b := make([]byte, i)
+		for j := range b {
+			b[j] = byte(j)
+		}
+		return b
+	}
+	// the formats before version 4 cannot tell nil from empty: record 0 may come back as either
+	same := func(got []byte, i int) bool { return bytes.Equal(got, want(i)) }
+	// sequential: read all; skip all; alternate (both phases); read buffers 5 and 4096
+	for _, rb := range []int{5, 4096} {
+		for _, pat := range []string{"R", "S", "RS", "SR", "RRS"} {
+			rd, err := openSeq(path, rb)
+			if err != nil {
+				viol("sequential reader (buffer %d): %v", rb, err)
+				continue
+			}
+			r.Traces++
+			for i := 0; i <= n; i++ {
+				r.Evals++
+				skip := pat[i%len(pat)] == 'S'
+				var got []byte
+				var err error
+				if skip {
+					err = rd.SkipNext()
+				} else {
+					got, err = rd.ReadNext()
+				}
+				if i == n {
+					if !errors.Is(err, io.EOF) {
+						viol("pattern %s buffer %d: call %d past the last record returned %s,%v want EOF", pat, rb, i, recStr(got), err)
+					}
+					break
+				}
+				if err != nil {
+					viol("pattern %s buffer %d: call %d (skip=%v) failed: %v", pat, rb, i, skip, err)
+					break
+				}
+				if !skip && !same(got, i) {
+					viol("pattern %s buffer %d: record %d = %s want %s", pat, rb, i, recStr(got), recStr(want(i)))
+					break
+				}
+			}
+			rd.Close()
+		}
+	}
+	// random access
+	mm, err := recordio.NewMemoryMappedReaderWithPath(path)
+	if err == nil {
+		err = mm.Open()
+	}
+	if err != nil {
+		viol("mmap reader: %v", err)
+		return r
+	}
+	defer mm.Close()
+	r.Keys = append(r.Keys, core.HashKey("legacy", cs.Legacy))
+	if strings.HasPrefix(cs.Legacy, "v1") {
+		// no record marker below version 2: only the first offset is known (SeekNext is documented as unsupported)
+		got, err := mm.ReadNextAt(8)
+		r.Evals++
+		if err != nil || !same(got, 0) {
+			viol("ReadNextAt(8) = %s,%v want the first record", recStr(got), err)
+		}
+		if _, _, err := mm.SeekNext(0); err == nil {
+			viol("SeekNext on a version-1 file did not report that it is unsupported")
+		}
+		r.Outcome = "legacy v1"
+		return r
+	}
+	var offs []uint64
+	off := uint64(0)
+	for i := 0; i < n+2; i++ {
+		r.Evals++
+		o, got, err := mm.SeekNext(off)
+		if err != nil {
+			if !errors.Is(err, io.EOF) {
+				viol("SeekNext(%d) failed: %v", off, err)
+			}
+			break
+		}
+		if i >= n {
+			viol("SeekNext finds a record %d at offset %d beyond the %d written", i, o, n)
+			break
+		}
+		if !same(got, i) {
+			viol("SeekNext(%d) = offset %d %s, want record %d %s", off, o, recStr(got), i, recStr(want(i)))
+			break
+		}
+		offs = append(offs, o)
+		off = o + 1
+	}
+	if len(offs) != n && len(r.Viol) == 0 {
+		viol("SeekNext chain found %d records, written %d", len(offs), n)
+	}
+	for i, o := range offs {
+		r.Evals += 2
+		got, err := mm.ReadNextAt(o)
+		if err != nil || !same(got, i) {
+			viol("ReadNextAt(%d) = %s,%v want record %d", o, recStr(got), err, i)
+			break
+		}
+		// from inside record i the next record is found (the payloads hold no marker)
+		if i+1 < len(offs) && offs[i+1] > o+1 {
+			o2, got, err := mm.SeekNext(o + 1)
+			if err != nil || o2 != offs[i+1] || !same(got, i+1) {
+				viol("SeekNext(%d) = offset %d %s,%v want record %d at %d", o+1, o2, recStr(got), err, i+1, offs[i+1])
+				break
+			}
+		}
+	}
+	r.Outcome = fmt.Sprintf("legacy ok=%v", len(r.Viol) == 0)
+	r.Sample = string(core.J(map[string]any{"legacy_file": cs.Legacy, "records": n, "offsets_found": len(offs)}))
+	return r
 }
